@@ -31,7 +31,7 @@ var shard, nshards = 0, 1
 // mine reports whether the current case id belongs to this shard; generators always run (the PRNG
 // stream is the same in every shard), only the evaluation is divided.
 func mine() bool {
-	if id < 36 { // the constants and the hand-written witness cases: shard 0 (first replays)
+	if id < 45 { // the constants and the hand-written witness cases: shard 0 (first replays)
 		if shard == 0 {
 			return true
 		}
@@ -211,6 +211,7 @@ type fileLine struct {
 	isUnit bool
 	unit   string      // Unit line
 	kvs    [][2]string // Unit line
+	sep    string      // Unit line: blanks after the keyword and between the fields ("" = one space)
 	meas   []meas      // Benchmark line
 }
 
@@ -265,6 +266,9 @@ func valText(r *hx.Rand) (string, float64) {
 	return t, pv
 }
 
+// blanks between the fields of a Unit line (seed C04-Y): ASCII controls, mixed runs, Unicode spaces
+var unitBlanks = []string{"\t", "\v", "\f", " \t", "\t ", "  ", " \t \v", "\u00a0", "\u2003", "\u0085", " \u00a0", "\t\t", "\f \f", "\u3000"}
+
 var metaKeys = []string{"better", "assume", "foo"}
 var metaVals = []string{"higher", "lower", "exact", "nothing", "x", ""}
 
@@ -289,10 +293,16 @@ func fileCase(lines []fileLine, queries []string, pats []string) {
 	tagSet := map[string]bool{}
 	for _, l := range lines {
 		if l.isUnit {
-			text.WriteString("Unit " + l.unit)
+			sep := l.sep
+			if sep == "" {
+				sep = " "
+			} else {
+				tagSet["unitblank"] = true
+			}
+			text.WriteString("Unit" + sep + l.unit)
 			var kv []string
 			for _, p := range l.kvs {
-				text.WriteString(" " + p[0] + "=" + p[1])
+				text.WriteString(sep + p[0] + "=" + p[1])
 				kv = append(kv, hx.HexS(p[0])+"="+hx.HexS(p[1]))
 			}
 			text.WriteString("\n")
@@ -501,6 +511,9 @@ func genFile(r *hx.Rand) {
 				u = tidiedName(u)
 			}
 			l := fileLine{isUnit: true, unit: u}
+			if r.Chance(1, 2) { // the format separates fields by any white space
+				l.sep = hx.Pick(r, unitBlanks)
+			}
 			for j := 1 + r.Intn(2); j > 0; j-- {
 				l.kvs = append(l.kvs, [2]string{hx.Pick(r, metaKeys), hx.Pick(r, metaVals)})
 			}
@@ -586,6 +599,26 @@ func filterQuery(fkind, pat string) (query string, tag string) {
 		query = "-.unit:" + strconv.Quote(pat)
 	case "name":
 		query = ".name:" + pat
+	case "list", "nlist", "chain", "nchain":
+		// an OR of literal `.unit` terms: `.unit:("a" OR "b")` or `(.unit:"a" OR .unit:"b")`; pat holds the
+		// literals separated by newlines
+		var qs []string
+		for _, p := range strings.Split(pat, "\n") {
+			if fkind == "list" || fkind == "nlist" {
+				qs = append(qs, strconv.Quote(p))
+			} else {
+				qs = append(qs, ".unit:"+strconv.Quote(p))
+			}
+		}
+		if fkind == "list" || fkind == "nlist" {
+			query = ".unit:(" + strings.Join(qs, " OR ") + ")"
+		} else {
+			query = "(" + strings.Join(qs, " OR ") + ")"
+		}
+		if fkind[0] == 'n' {
+			query = "-" + query
+		}
+		tag = "unitlist"
 	case "re-prefix", "re-exact", "re-sub", "re-suffix", "nre-prefix", "nre-exact", "nre-sub", "nre-suffix":
 		// a regexp `.unit` term built from a literal, so that the driver can decide it without a
 		// regexp engine: ^lit, ^lit$, lit, lit$ (the "/" delimiter escaped)
@@ -1251,6 +1284,40 @@ func genWide(r *hx.Rand, n int) {
 	}
 }
 
+// units with regexp metacharacters (legal unit text: `*` is a separator) and look-alike foreign units
+var metaUnits = []string{"B*sec", "MB*ns", "op/s*ns", "op/s*sec", "a+b", "a.b/op", "x|y", "f(x)/op", "v[0]", "ns*ns", "sec*sec", "c++/op", "MB*MB/s", "B*B/s"}
+var alikeUnits = []string{"Bsec", "Bxsec", "BBsec", "MBns", "ab", "aab", "axb/op", "x", "y", "f/op", "fx/op", "v0", "secsec", "sec", "op/ssec", "op/sec", "cc/op", "BB/s"}
+
+func genUnitList(r *hx.Rand) {
+	pool := []string{hx.Pick(r, metaUnits), hx.Pick(r, metaUnits), hx.Pick(r, alikeUnits), hx.Pick(r, alikeUnits), hx.Pick(r, alikeUnits), "ns/op", "sec/op"}
+	var lines []histLine
+	for j := 1 + r.Intn(3); j > 0; j-- {
+		l := histLine{name: hx.Pick(r, []string{"Keep", "Skip"})}
+		for k := 2 + r.Intn(5); k > 0; k-- {
+			t, pv := valText(r)
+			l.meas = append(l.meas, meas{t, pv, hx.Pick(r, pool)})
+		}
+		lines = append(lines, l)
+	}
+	var ps []string
+	for k := 2 + r.Intn(2); k > 0; k-- {
+		u := hx.Pick(r, pool[:2])
+		if r.Chance(1, 3) {
+			u = hx.Pick(r, pool)
+		}
+		if r.Bool() {
+			u = tidiedName(u)
+		}
+		ps = append(ps, u)
+	}
+	k := hx.Pick(r, []string{"list", "list", "chain", "nlist", "nchain"})
+	if r.Chance(1, 3) {
+		histCase([][]histLine{lines}, k, strings.Join(ps, "\n"))
+	} else {
+		keepCase(lines, k, strings.Join(ps, "\n"), r.Chance(1, 6))
+	}
+}
+
 // ---------------------------------------------------------------- main
 
 func main() {
@@ -1318,6 +1385,15 @@ func main() {
 		keepCase(keepLines, w[0], w[1], false)
 	}
 	keepCase(keepLines, "u", "ns/op", true)
+	// seed C04-Y: Unit lines whose keyword is followed by TAB / VT / FF / mixed blanks / Unicode spaces
+	for _, sp := range []string{"\t", "\v", "\f", " \t", "\u00a0"} {
+		fileCase([]fileLine{
+			{isUnit: true, unit: "ns/op", sep: sp, kvs: [][2]string{{"better", "higher"}}},
+			{isUnit: true, unit: "B/s", sep: sp, kvs: [][2]string{{"assume", "exact"}}},
+			{isUnit: true, unit: "x-ns/op", sep: sp, kvs: [][2]string{{"better", "lower"}, {"assume", "exact"}}},
+			{meas: []meas{m("5", 5, "ns/op"), m("2", 2, "MB/s"), m("3", 3, "x-ns/op")}},
+		}, []string{"ns/op", "sec/op", "MB/s", "B/s", "x-ns/op", "x-sec/op"}, []string{"ns/op"})
+	}
 	// seed C04-W: 19- and 20-digit integers in rescaled and pass-through units
 	for _, u := range []string{"ns/op", "MB/s", "B/op"} {
 		var ms []meas
@@ -1339,6 +1415,12 @@ func main() {
 	comb = "or-name-wu"
 	histCase([][]histLine{orLines}, "u", "ns/op")
 	comb = "none"
+	// seed C04-Z: value lists over units with regexp metacharacters, look-alikes among the measurements
+	zl := []histLine{{"Keep", []meas{m("1", 1, "MB*ns"), m("2", 2, "B*sec"), m("3", 3, "Bsec"), m("4", 4, "ns/op"), m("5", 5, "sec"), m("6", 6, "Bxsec")}}}
+	keepCase(zl, "list", "MB*ns\nns/op", false)
+	keepCase(zl, "list", "B*sec\nsec/op", false)
+	keepCase(zl, "nlist", "B*sec\nsec/op", false)
+	keepCase(zl, "chain", "MB*ns\nns/op", false)
 	// seed C04-S: exactly 32 / 64 measurements
 	w32 := histLine{name: "Keep"}
 	for i := 0; i < 32; i++ {
@@ -1409,6 +1491,12 @@ func main() {
 	nk := hx.N(3000, 60000)
 	for i := 0; i < nk; i++ {
 		withComb(r, func() { genKeep(r) })
+	}
+
+	// `.unit` value lists and OR chains over units with regexp metacharacters
+	nl := hx.N(1500, 30000)
+	for i := 0; i < nl; i++ {
+		withComb(r, func() { genUnitList(r) })
 	}
 
 	// results with exactly 32·k measurements and their neighbours
